@@ -3,6 +3,26 @@ import json, os
 V = os.path.dirname(os.path.dirname(os.path.abspath(__file__)))
 
 CHECKS = {
+ "C03": dict(
+   technique="TLA+ transition system of the tracer's reverse sweep (Tracer.tla: adjoint buffers mirroring views, saved/restored in-place writes, roll-forward) model-checked against ybar^T J from forward-mode series carried in a fresh reference execution; TLC behaviours replayed through the real CGraph; C-matrix x mpmath for analytic pullbacks",
+   text="TLC checks AdjointCorrect (reverse sweep = ybar^T J along the curve, every Taylor order) for every program up to the instruction bound over {views, in-place buffer writes, +,-,*,/, integer powers, sum, constants, reversed views}, from a plain and a buffered prefix, D=2, non-symmetric seeds; every behaviour is replayed through real Function/CGraph objects and xbar compared exactly. Unary analytic functions recorded through the tracer are checked against spec C-matrix x mpmath for all coefficient patterns (two sweeps). The remaining API (linear algebra, factorizations, reductions with axis, broadcasting with constants, fft, tile, reshape of transposed data) is checked with the dot-product identity of the property against forward mode.",
+   note="program length <= 3 after the prefix (4 in thorough), N=2 input cells, D<=2 in the spec (analytic part D<=5); the full-API fragment is relational (J v from algopy's forward mode by a 4-point stencil in h, tolerance 2e-6)",
+   design="3.7, 4 (C03)"),
+ "C04": dict(
+   technique="TLA+ model of the eight graph drivers as seed construction + replay + reverse sweep on the persistent graph state (Tracer!Drv), reference from forward-mode derivative series of a fresh execution; TLC behaviours replayed against the real drivers for both recording kinds",
+   text="TLC checks DriverCorrect for gradient, jacobian, jac_vec, vec_jac, hessian, hess_vec, vec_hess, vec_hess_vec and jacobian(UTPM) on every program up to the bound (incl. buffered programs where an overwritten cell had been read by a product), recorded at (1,2) and evaluated at other points, in every position of a call history; each behaviour is replayed with the graph recorded from ndarray and from UTPM inputs and the driver's return value compared with the exact rational derivative.",
+   note="polynomial/rational programs only (exact fragment), N=2, M<=2, small catalogues of points and vectors",
+   design="3.7, 3.8, 4 (C04)"),
+ "C05": dict(
+   technique="TLA+ model of recording and re-evaluation (Tracer.tla: RecordOnce action property, ReplayIsProgram invariant), TLC bounded-exhaustive; behaviours replayed through real Function nodes with the graph structure and every node value compared after each instruction",
+   text="TLC checks RecordOnce (each executed operation appended exactly once, in order, after its operands, nothing while recording is off) and ReplayIsProgram (re-evaluation with ndarray / UTPM(D,P) inputs equals a fresh direct execution of the program, with per-kind view/copy semantics) for all programs and call sequences within the bounds; the replay checks cg.functionList (identity, ID = position, operand order) after every instruction, node values while recording, and every pushforward result, for graphs recorded from ndarray and UTPM inputs, with trace_off/trace_on toggles.",
+   note="programs <= 3 instructions after the prefix (4 in thorough), one independent vector of 2 cells; API breadth beyond the exact fragment (x**y with traced exponent, several independents, fft keyword arguments) through the relational full-API replay (graph replay vs direct execution of the same Python function)",
+   design="3.7, 4 (C05)"),
+ "C06": dict(
+   technique="TLA+ call histories on the tracer model (forward evaluation at other points/degrees/kinds, reverse sweeps with other seeds, drivers, unrelated graphs) with every call's result checked against the reference of that call's arguments; deviation switches reproduce the pre-fix defects as TLC counterexamples; histories replayed on the real graph",
+   text="For every program and every history of <= 3 (4) calls TLC evaluates ReplayIsProgram / ForwardValuesStable / AdjointCorrect / DriverCorrect after each call; every history is replayed on the real CGraph comparing each return value exactly and the dependent's forward value before/after each sweep. Full-API programs (tan, sqrt, erf, dot, inv, solve, qr, eigh, buffers) are run through pushforward elsewhere; pullback; pushforward; three pullbacks and compared with a fresh graph and among themselves; all node values must be unchanged by the sweeps.",
+   note="bounded programs/histories; full-API part is relational (fresh graph as reference), as the property states ('a function of that call's arguments only')",
+   design="3.7, 4 (C06)"),
  "C02": dict(
    technique="TLA+ state machine of UTPM objects on an explicit heap (UTPMachine over TPS/NDA), TLC bounded-exhaustive + simulation; every TLC behaviour replayed into algopy with the full projected heap compared after each action",
    text="TLC enumerates every behaviour (sequence of binary/reflected/in-place operators, integer powers, unary ops with UTPM, array and scalar operands under NumPy broadcasting, incl. constant arrays with more axes than the polynomial and leading extent P) of the bounded UTPMachine instance, checks the design invariants on it, and each behaviour is executed on real UTPM objects: after every action all objects must equal the spec state (exact rationals, shapes, memory sharing). The algebra itself (ring laws, division, constants as degree-0 polynomials) is model-checked in MC_TPS.",
